@@ -177,6 +177,89 @@ pub fn eval_id_form(id: &Value, phase: &str) -> Option<(String, String)> {
     None
 }
 
+/// (e) unknown methods with unusual names (long, non-ASCII around byte 48 / 64 / 255, empty):
+/// every one is a request like any other and gets MethodNotFound with its id
+pub fn eval_unknown_method_names() -> Option<(String, String)> {
+    let names: Vec<String> = vec![
+        String::new(),
+        format!("{}\u{e9}tail", "a".repeat(47)),
+        format!("{}\u{20ac}tail", "a".repeat(46)),
+        format!("{}\u{1f600}", "m/".repeat(31)),
+        format!("{}\u{e9}", "x".repeat(255)),
+        "y".repeat(5000),
+        "textDocument/hover ".to_string(),
+        "$/\u{e9}".to_string(),
+    ];
+    let mut msgs = vec![request(1000, "initialize", json!({"capabilities": {}})), notification("initialized", json!({}))];
+    for (i, n) in names.iter().enumerate() {
+        msgs.push(request(i as i64 + 1, n, json!({})));
+    }
+    msgs.push(request(1001, "shutdown", Value::Null));
+    msgs.push(notification("exit", Value::Null));
+    let bytes: Vec<u8> = msgs.iter().flat_map(frame).collect();
+    let o = procdrv::run_chunks(&[bytes], false, EXIT_LIMIT);
+    if o.timed_out {
+        return Some(("unknown-method-names:hang".into(), "no exit".into()));
+    }
+    if let Some(e) = &o.frame_error {
+        return Some(("unknown-method-names:malformed-output".into(), e.clone()));
+    }
+    for (i, n) in names.iter().enumerate() {
+        let r = o.frames.iter().find(|f| f.get("method").is_none() && f["id"].as_i64() == Some(i as i64 + 1));
+        let code = r.and_then(|f| f["error"]["code"].as_i64());
+        if code != Some(-32601) {
+            return Some(("unknown-method-names:wrong-answer".into(), format!("method name #{} ({} bytes): answer {:?}, expected error -32601", i, n.len(), r.map(|f| truncate(&f.to_string(), 200)))));
+        }
+    }
+    if o.exit_code != Some(0) {
+        return Some(("unknown-method-names:exit-status".into(), format!("{:?}", o.exit_code)));
+    }
+    None
+}
+
+/// (f) a response above 8 / 16 KiB (beyond the write buffer of the framed writer) as the last
+/// thing before the process ends - through shutdown+exit, through exit alone, through end of
+/// input - and with a client that waits for it before it goes on (lock-step)
+pub fn eval_large_response(ending: &str) -> Option<(String, String)> {
+    let text: String = (0..400).map(|i| format!("proc p{}() {{\n}}\n", i)).collect();
+    let mut msgs = vec![
+        request(1000, "initialize", json!({"capabilities": {}})),
+        notification("initialized", json!({})),
+        notification("textDocument/didOpen", json!({"textDocument": {"uri": "file:///big.spl", "languageId": "spl", "version": 1, "text": text}})),
+        request(1, "textDocument/foldingRange", json!({"textDocument": {"uri": "file:///big.spl"}})),
+    ];
+    match ending {
+        "shutdown-exit" => {
+            msgs.push(request(1001, "shutdown", Value::Null));
+            msgs.push(notification("exit", Value::Null));
+        }
+        "exit" => msgs.push(notification("exit", Value::Null)),
+        _ => {}
+    }
+    let o = if ending == "lock-step" {
+        msgs.push(request(1001, "shutdown", Value::Null));
+        msgs.push(notification("exit", Value::Null));
+        procdrv::run_lockstep(&msgs, EXIT_LIMIT)
+    } else {
+        let bytes: Vec<u8> = msgs.iter().flat_map(frame).collect();
+        procdrv::run_chunks(&[bytes], false, EXIT_LIMIT)
+    };
+    if o.timed_out {
+        return Some((format!("large-response:{}:hang", ending), "no exit".into()));
+    }
+    if let Some(i) = o.unanswered {
+        return Some((format!("large-response:{}:unanswered", ending), format!("message #{} got no response within 5 s", i)));
+    }
+    if let Some(e) = &o.frame_error {
+        return Some((format!("large-response:{}:malformed-output", ending), truncate(e, 300)));
+    }
+    let n = o.frames.iter().find(|f| f.get("method").is_none() && f["id"].as_i64() == Some(1)).and_then(|f| f["result"].as_array()).map(|a| a.len());
+    if n != Some(400) {
+        return Some((format!("large-response:{}:missing-or-wrong", ending), format!("fold answer with {:?} ranges, expected 400; {} bytes of output", n, o.raw.len())));
+    }
+    None
+}
+
 /// (c) in process, all schedules within the preemption bound
 pub fn eval_schedules(h: &[Msg], bound: usize, clamp: Option<usize>) -> (u64, u64, usize, Option<(String, String, Value)>) {
     let exp = expect(h);
@@ -320,8 +403,16 @@ pub fn run(tier: Tier) -> Report {
             eval_id_form(id, phase).map(|(k, d)| Failure { key: format!("lifecycle:{}", k), case: json!({"id": id, "phase": phase, "mode": "process-id-form"}), detail: d })
         })
         .collect();
-    let n_d = id_cases.len() as u64;
+    let n_d = id_cases.len() as u64 + 5;
     fails.extend(fd);
+    for ending in ["shutdown-exit", "exit", "end-of-input", "lock-step"] {
+        if let Some((k, d)) = eval_large_response(ending) {
+            fails.push(Failure { key: format!("lifecycle:{}", k), case: json!({"mode": "process-large-response", "ending": ending}), detail: d });
+        }
+    }
+    if let Some((k, d)) = eval_unknown_method_names() {
+        fails.push(Failure { key: format!("lifecycle:{}", k), case: json!({"mode": "process-unknown-method-names"}), detail: d });
+    }
     rep.extra.insert("id_form_sessions".into(), json!(n_d));
     rep.states = n_a + n_b + n_d + safe.len() as u64;
     rep.transitions = 2 * n_a + n_b + n_d + execs.load(Ordering::Relaxed);
@@ -364,6 +455,12 @@ fn parse_history(s: &str) -> Vec<Msg> {
 
 pub fn replay(case: &Value) -> Vec<Failure> {
     let h = parse_history(case["history"].as_str().unwrap_or(""));
+    if case["mode"] == json!("process-large-response") {
+        return eval_large_response(case["ending"].as_str().unwrap_or("exit")).map(|(k, d)| vec![Failure { key: format!("lifecycle:{}", k), case: case.clone(), detail: d }]).unwrap_or_default();
+    }
+    if case["mode"] == json!("process-unknown-method-names") {
+        return eval_unknown_method_names().map(|(k, d)| vec![Failure { key: format!("lifecycle:{}", k), case: case.clone(), detail: d }]).unwrap_or_default();
+    }
     if case["mode"] == json!("process-id-form") {
         return eval_id_form(&case["id"], case["phase"].as_str().unwrap_or("main")).map(|(k, d)| vec![Failure { key: format!("lifecycle:{}", k), case: case.clone(), detail: d }]).unwrap_or_default();
     }
